@@ -76,6 +76,8 @@ def subtree(rng, gate, trace_dir):
         on["t2"]["hybrid"].update({"lambda_graph": 1.0, "edge_threshold": 0.0, "max_bonus": 10.0, "k_max": 128, "anchor_top_m": 8})
         off = copy.deepcopy(on)
         off["t2"]["hybrid"]["enabled"] = False
+        # every boolean / numeric knob of the closed subtree away from its default
+        off["t2"]["hybrid"]["use_graph"] = rng.random() < 0.5
         return off, on
     if gate == "reflection":
         on = gate_cfg(rng, "reflection", True)
@@ -144,6 +146,14 @@ def gen_case(rng, gate):
     if gate in ("gel", "quality", "hybrid", "reflection", "scheduler") and rng.random() < 0.3:
         # the perf metrics gate open in the base: the gated metrics blocks of the canonical records are written
         base = merge(base, {"perf": {"enabled": True, "metrics": {"report_memory": True}}})
+    cache_watch = gate == "hybrid" and rng.random() < 0.4
+    if cache_watch:
+        # the graph layer learning in the base, the perf metrics gate open (cache counters are written) and - below - one
+        # question asked again and again at one logical time: what the stage caches key on becomes visible in the records
+        base = merge(base, gate_cfg(rng, "gel", True))
+        base = merge(base, {"perf": {"enabled": True, "metrics": {"report_memory": True}}})
+        if rng.random() < 0.5:
+            base["t4"]["enabled"] = False
     turns = gen_turns(rng, world, n=(2, 4), agents=("A", "B"), plans=False)
     for t in turns:
         nd = rng.choice([1, 2, 3])
@@ -151,7 +161,7 @@ def gen_case(rng, gate):
                      "reflection": True}
         if rng.random() < 0.4:
             t["plan"] = None if gate not in ("reflection",) else t["plan"]
-    if rng.random() < (0.5 if gate.startswith("perf") else 0.2):
+    if cache_watch or rng.random() < (0.5 if gate.startswith("perf") else 0.2):
         # the same question asked again by the same agent at the same logical time: the stage caches serve hits, so the
         # gated code on the hit paths runs too
         for t in turns[1:]:
